@@ -94,6 +94,59 @@ Lemma pz_MU_consistent : forall mu c m0 m1 m2,
   consistent3 (fun a b w => c * a * b * w * mu) m0 m1 m2 (evalR env pz_MU_g0) (evalR env pz_MU_g1) (evalR env pz_MU_g2) (evalR env pz_MU_os).
 Proof. intros. unfold env, pz_MU_g0, pz_MU_g1, pz_MU_g2, pz_MU_os. ev. apply c3_intro; [dsolve | dsolve | dsolve | field]. Qed.
 
+(* The weights as pitzer_tidy SETS them (tidy_* regenerated from Phreeqc::pitzer_tidy), so that for the species
+   combinations below the LAMBDA / MU consistency no longer rests on a hypothesis about the data:
+   - LAMBDA between two DIFFERENT species (neutral-cation, neutral-anion, neutral-neutral'): weights (2, 2, 1), potential 2 la m0 m1;
+   - LAMBDA self-interaction (i0 = i1, both LGAMMA increments land on the same species, M[i0] = M[i1] = m): weights (1, 1, 1/2),
+     potential la m^2;
+   - MU between three DIFFERENT species: weights 6, 6, 6 and os_coef 6, potential 6 mu m0 m1 m2. *)
+Definition kq (e : rexpr) : R := evalR (env_of []) e.
+
+Lemma pz_LAMBDA_tidy_distinct_consistent : forall la m0 m1,
+  let env := env_of [m0; m1; la; kq tidy_LA_ln0_dist; kq tidy_LA_ln1_dist; kq tidy_LA_os_dist] in
+  consistent2 (fun a b => 2 * a * b * la) m0 m1 (evalR env pz_LA_g0) (evalR env pz_LA_g1) (evalR env pz_LA_os).
+Proof.
+  intros. unfold env, kq, tidy_LA_ln0_dist, tidy_LA_ln1_dist, tidy_LA_os_dist, pz_LA_g0, pz_LA_g1, pz_LA_os. ev.
+  apply c2_intro; [dsolve | dsolve | field].
+Qed.
+
+Lemma pz_LAMBDA_tidy_self_consistent : forall la m,
+  let env := env_of [m; m; la; kq tidy_LA_ln0_self; kq tidy_LA_ln1_self; kq tidy_LA_os_self] in
+  is_derive (fun x => la * x * x) m (evalR env pz_LA_g0 + evalR env pz_LA_g1) /\
+  2 * evalR env pz_LA_os = m * (evalR env pz_LA_g0 + evalR env pz_LA_g1) - la * m * m.
+Proof.
+  intros. unfold env, kq, tidy_LA_ln0_self, tidy_LA_ln1_self, tidy_LA_os_self, pz_LA_g0, pz_LA_g1, pz_LA_os. ev.
+  split; [dsolve | field].
+Qed.
+
+Lemma pz_MU_tidy_distinct_consistent : forall mu m0 m1 m2,
+  (* any mixture of ions and neutral species among the three, all different; os_coef from either branch of pitzer_tidy *)
+  forall l0 l1 l2 os, In l0 [kq tidy_MU_ln_ion_dist; kq tidy_MU_ln_neutral_dist] -> In l1 [kq tidy_MU_ln_ion_dist; kq tidy_MU_ln_neutral_dist] ->
+    In l2 [kq tidy_MU_ln_ion_dist; kq tidy_MU_ln_neutral_dist] -> In os [kq tidy_MU_os_dist; kq tidy_MU_os_dist_nnn] ->
+  let env := env_of [m0; m1; m2; mu; l0; l1; l2; os] in
+  consistent3 (fun a b w => 6 * a * b * w * mu) m0 m1 m2 (evalR env pz_MU_g0) (evalR env pz_MU_g1) (evalR env pz_MU_g2) (evalR env pz_MU_os).
+Proof.
+  intros mu m0 m1 m2 l0 l1 l2 os H0 H1 H2 Hos env.
+  assert (E : forall x, In x [kq tidy_MU_ln_ion_dist; kq tidy_MU_ln_neutral_dist; kq tidy_MU_os_dist; kq tidy_MU_os_dist_nnn] -> x = 6).
+  { intros x Hx. unfold kq, tidy_MU_ln_ion_dist, tidy_MU_ln_neutral_dist, tidy_MU_os_dist, tidy_MU_os_dist_nnn in Hx.
+    simpl in Hx. rewrite !Q2R_make in Hx. destruct Hx as [<-|[<-|[<-|[<-|[]]]]]; lra. }
+  assert (E0 : l0 = 6) by (apply E; simpl in *; tauto).
+  assert (E1 : l1 = 6) by (apply E; simpl in *; tauto).
+  assert (E2 : l2 = 6) by (apply E; simpl in *; tauto).
+  assert (E3 : os = 6) by (apply E; simpl in *; tauto).
+  subst. unfold env, pz_MU_g0, pz_MU_g1, pz_MU_g2, pz_MU_os. ev.
+  apply c3_intro; [dsolve | dsolve | dsolve | field].
+Qed.
+
+(* the guards under which pitzer_tidy assigns these weights, and that nothing else assigns LAMBDA weights *)
+Lemma pz_tidy_tables :
+  tidy_LA_os_self_conds = ["pitz_params[i]->type == TYPE_LAMBDA"; "i0 == i1"]%string /\
+  tidy_LA_ln0_self_conds = tidy_LA_os_self_conds /\ tidy_LA_ln1_self_conds = tidy_LA_os_self_conds /\
+  tidy_LA_os_dist_conds = ["pitz_params[i]->type == TYPE_LAMBDA"; "!(i0 == i1)"]%string /\
+  tidy_LA_ln0_dist_conds = tidy_LA_os_dist_conds /\ tidy_LA_ln1_dist_conds = tidy_LA_os_dist_conds /\
+  tidy_LAMBDA_assignments = 6%nat.
+Proof. repeat split; reflexivity. Qed.
+
 (* ---- C0: potential m0 m1 Z C / (2 sqrt|z0 z1|), Z = sum m |z|;  dg/dZ is the CSUM increment ---------- *)
 Lemma pz_C0_consistent : forall C z0 z1 m0 m1 Z, z0 * z1 <> 0 ->
   let k := 2 * sqrt (Rabs (z0 * z1)) in
